@@ -10,7 +10,7 @@ from ..terms import A, C, F, V, NIL, term_size, pp as show_term
 ID = 'C02'
 LEVEL = 'model_checking'
 RULE = ('every ordered pair (t1,t2) of the term universe (quick: all terms of depth <=1 over variables X,Y,Z, '
-        'atoms a,b,[], Python constants 1, 1000003, \'str\' (passed as equal but distinct objects) and None, 0, the empty string, -1, -2, 2**61-1 (pairs with colliding Python hashes) (at top level and as arguments of f/1, f/2), two-cell list-shaped terms whose cells are named . or f, functors f/0 a/0 (compound terms without arguments, distinct from the atoms) f/1 f/2 g/1 ./2; thorough: additionally all terms of depth <=2 with <=4 symbols under the 6 menu stacks) '
+        'atoms a,b,[], Python constants 1, 1000003, \'str\' (passed as equal but distinct objects) and None, 0, the empty string, -1, -2, 2**61-1 (pairs with colliding Python hashes) (at top level and as arguments of f/1, f/2), two-cell list-shaped terms whose cells are named . or f, wide compounds f/10 f/11 f/12 p/21 next to f1/0 f1/2 p2/1, functors f/0 a/0 (compound terms without arguments, distinct from the atoms) f/1 f/2 g/1 ./2; thorough: additionally all terms of depth <=2 with <=4 symbols under the 6 menu stacks) '
         'x every stack of earlier, still suspended unifications from the menu (quick: 6 stacks; thorough: the depth<=1 universe under every '
         'stack of <=2 equations out of 8 that is consistent and acyclic) x every point of the stack at which the unify generator is CREATED (it is always advanced under the whole stack). For each: number of yields, canonical '
         'observation of (X,Y,Z,t1,t2) at the yield vs Robinson unification (mgu up to renaming incl. aliasing), both '
@@ -51,6 +51,10 @@ def universe(tier):
                 for h2 in (b, Y):
                     for t in (NIL, Z):
                         d1.append(F(n1, h1, F(n2, h2, t)))
+    # names that end in digits next to the same stem at arities >= 10 (f1/2 and f/12, f1/0 and f/10,
+    # p2/1 and p/21): name and number of arguments are two things
+    wide = lambda n: [a, X] + [b] * (n - 2)  # noqa: E731
+    d1 += [F('f1', a, X), F('f', *wide(12)), F('f1'), F('f', *wide(10)), F('p2', X), F('p', *wide(21)), F('f', *wide(11))]
     if tier == 'quick':
         return d1
     d2 = list(d1)
